@@ -176,6 +176,8 @@ pub fn spaces(tier: Tier) -> Vec<Space<'static>> {
         let c = Call { label: format!("build_object({:?})", pairs), expect: Ok(ops::build_object(&pairs)), run: Box::new(move |buf| jsonb::build_object(it2.iter().map(|(k, p)| (keys[*k], &op2[*p].1[..])), buf)) };
         judge(&c, acc, &|| json!({}));
     }));
+    sp.push(Space::new("wide (4-6 siblings over 5 kinds)", refmodel::gen::wide_count(), |i, acc| crate::checks::scale::wide_deep_doc(&refmodel::gen::wide_nth(i), acc, 3)));
+    sp.push(Space::new("deep (4-6 levels, 5 sibling patterns per level)", refmodel::gen::deep_count(), |i, acc| crate::checks::scale::wide_deep_doc(&refmodel::gen::deep_nth(i), acc, 3)));
     let sd = crate::checks::scale::docs().clone();
     sp.push(Space::new("scale (counts/lengths/offsets across 2^8, 2^16, 2^20)", sd.len() as u64, move |i, acc| crate::checks::scale::editors(&sd[i as usize], &crate::checks::scale::small_pool(), acc)));
     if tier.thorough() {
